@@ -40,6 +40,15 @@ Record cstate : Type := mkC {
 
 Definition cinit (ms : list meth) : cstate := mkC ms [] [] [].
 
+(* what MultiTypeMap.__missing__ does for a key with a leading code object once the plain key has been looked up:
+   foreign    = the caller's code is not among the candidates recorded for the plain key (self.all),
+   remembered = an ambiguity is remembered under the code key (self.errors),
+   stored     = a handler is stored under the code key *)
+Inductive code_action : Type := CA_plain | CA_error | CA_entry | CA_nomethod.
+
+Definition code_action_of (foreign remembered stored : bool) : code_action :=
+  if foreign then CA_plain else if remembered then CA_error else if stored then CA_entry else CA_nomethod.
+
 Definition ids (g : list cand) : list nat := map (fun c => m_id (c_m c)) g.
 
 Section Hier.
